@@ -322,10 +322,16 @@ def sampling(repo, chk):
     sc = Scope(fn)
     n_expr = f'int({rp} * len({Xp}))'
     quota_t = E(f'int({n_expr} / len({vp}))')
-    ZERO_FORMS = [('cmp', '==', ('num', 0), quota_t), ('cmp', '==', quota_t, ('num', 0)), ('cmp', '<', quota_t, ('num', 1)), ('cmp', '<=', quota_t, ('num', 0)), ('not', quota_t)]
-    POS_FORMS = [('cmp', '!=', ('num', 0), quota_t), ('cmp', '!=', quota_t, ('num', 0)), ('cmp', '<', ('num', 0), quota_t), ('cmp', '<=', ('num', 1), quota_t), quota_t]
+    # (both operands are non-negative counts: floor division and int() of the quotient agree)
+    QUOTAS = [quota_t, E(f'{n_expr} // len({vp})')]
+    ZERO_FORMS = [f for q in QUOTAS for f in (('cmp', '==', ('num', 0), q), ('cmp', '==', q, ('num', 0)), ('cmp', '<', q, ('num', 1)), ('cmp', '<=', q, ('num', 0)), ('not', q))]
+    POS_FORMS = [f for q in QUOTAS for f in (('cmp', '!=', ('num', 0), q), ('cmp', '!=', q, ('num', 0)), ('cmp', '<', ('num', 0), q), ('cmp', '<=', ('num', 1), q), q)]
+    # quota == 0  <=>  int(r*n) < #values   (the quota is the integer quotient of the two)
+    budget_t, nvals_t = E(n_expr), E(f'len({vp})')
+    ZERO_FORMS += [('cmp', '<', budget_t, nvals_t), ('cmp', '>', nvals_t, budget_t), ('not', ('cmp', '<=', nvals_t, budget_t)), ('not', ('cmp', '>=', budget_t, nvals_t))]
+    POS_FORMS += [('cmp', '<=', nvals_t, budget_t), ('cmp', '>=', budget_t, nvals_t), ('not', ('cmp', '<', budget_t, nvals_t))]
     loops = [n for n in own_nodes(fn.node) if isinstance(n, ast.For) and term_of(fn, n.iter, inline=True) in (('name', vp), E(f'enumerate({vp})'), E(f'range(len({vp}))'))]
-    mentions_quota = lambda t: any(x == quota_t for x in walk_term(t))
+    mentions_quota = lambda t: any(x in QUOTAS for x in walk_term(t)) or (any(x == budget_t for x in walk_term(t)) and any(x == nvals_t for x in walk_term(t)))
     # (a) an early return of the inputs when the quota is 0, or (b) the whole sampling block guarded by quota != 0 and the inputs returned otherwise
     early = [n for n in fn.node.body if isinstance(n, ast.If) and any(isinstance(x, ast.Return) for x in n.body)]
     verdict, site, shown = None, fn.site(), 'if quota == 0: return Y, X'
@@ -335,6 +341,9 @@ def sampling(repo, chk):
         if t in ZERO_FORMS:
             same = isinstance(r.value, ast.Tuple) and [ast.unparse(x) for x in r.value.elts] == [Yp, Xp] and len(e.body) == 1
             verdict, site, shown = ('ok' if same else 'bad'), fn.site(e), ast.unparse(e.test)
+        elif t in (('cmp', '<=', budget_t, nvals_t), ('cmp', '>=', nvals_t, budget_t)):
+            # int(r*n) <= #values also holds when the two are equal, i.e. when the quota is 1: the sample is then replaced by the full data
+            verdict, site, shown = 'bad1', fn.site(e), ast.unparse(e.test)
         elif mentions_quota(t) and verdict is None:
             verdict, site, shown = 'unsure', fn.site(e), ast.unparse(e.test)
     if verdict is None and loops:
@@ -354,7 +363,9 @@ def sampling(repo, chk):
                 elif mentions_quota(t):
                     verdict, site, shown = 'unsure', fn.site(cur), ast.unparse(cur.test)
             prev, cur = cur, par.get(cur)
-    if verdict == 'ok':
+    if verdict == 'bad1':
+        chk.bad('C04.3a', 'R15', site, shown, 'the inputs are returned unsampled when int(r*n) <= #values, which includes int(r*n) == #values where the per-value quota is 1: with a quota of 1 the estimator must use one row per value, not all rows')
+    elif verdict == 'ok':
         chk.ok('C04.3a', 'R15', site, shown, 'quota 0 -> all rows are used (inputs returned unchanged)')
     elif verdict == 'unsure' or (verdict is None and not loops):
         chk.unsure('C04.3a', 'R15', site, shown, 'a test on the per-value quota exists but is not one of the recognised forms of `quota == 0`')
@@ -374,9 +385,9 @@ def sampling(repo, chk):
             continue
         W = expected_term(m, f'numpy.where({Xp} == V)[0]', {'V': v})
         lenW = ('call', ('name', 'len'), (W,), ())
-        good = [('sub', W, ('slice', ('none',), quota_t, ('none',))),
+        good = [g_ for quota_t in QUOTAS for g_ in (('sub', W, ('slice', ('none',), quota_t, ('none',))),
                 ('sub', W, ('slice', ('none',), ('call', ('name', 'min'), (lenW, quota_t), ()), ('none',))), ('sub', W, ('slice', ('none',), ('call', ('name', 'min'), (quota_t, lenW), ()), ('none',))),
-                ('sub', W, ('slice', ('num', 0), quota_t, ('none',)))]
+                ('sub', W, ('slice', ('num', 0), quota_t, ('none',))))]
         cands = [n for n in ast.walk(lp) if isinstance(n, ast.Assign) and (isinstance(n.targets[0], ast.Subscript) or isinstance(n.targets[0], ast.Name))]
         for n in cands:
             t = term_of(fn, n.value, inline=True)
@@ -581,7 +592,9 @@ def estimator(repo, chk):
         names = {v: k for k, v in ((k, v) for k, v in pre.items())}
         nname = [k for k, v in pre.items() if v == E(f'len({Xp})')]
         uname = [k for k, v in pre.items() if v == E(f'{MI}.numba_unique({Xp})')]
-        args = [ast.unparse(a) for a in ce[0].args]
+        ce_fn = repo.func(MI, 'compute_entropies')
+        bce = bind_args(ce[0], ce_fn)
+        args = [ast.unparse(bce[p_]) if p_ in bce else None for p_ in ce_fn.params[:5]]
         ok_args = False
         if nname and uname:
             u = uname[0].strip('()').split(', ')
